@@ -30,4 +30,4 @@ For each change k in {{1,2}} create the directory `{wt}/out/{pid}{variant}_k/` c
   - `patch.diff`: the output of `git diff` for the library change alone (must apply with `git apply` to a clean checkout of this worktree's HEAD),
   - `demo.py`: a small self-contained program (it may loop over seeds/inputs, may take up to ~60 s) that exits with status 0 on the unmodified library and with a non-zero status (assertion failure) when the change is applied, demonstrating the property violation through the public API,
   - `notes.md`: 5-10 lines: what the change is, why it breaks the property, what is needed for it to manifest, and the exact commands you ran with their results (full-suite pass count with the change; demo result with and without the change).
-Verify both directions yourself (demo passes on clean tree, fails with patch; test suite passes with patch). When finished, restore the worktree source to clean (`git -C {wt} checkout -- pyvolutionary`), leaving only the `out/` directory, and reply with a short summary of the two changes (files/lines touched, what manifests them). If you cannot find a second change that keeps the suite green, deliver one and say so.""")
+Verify both directions yourself (demo passes on clean tree, fails with patch; test suite passes with patch). When finished, restore the worktree source to clean (`git -C {wt} checkout -- pyvolutionary`; never use `git stash` (the stash is shared by all worktrees of the repository and other agents are working in sibling worktrees)), leaving only the `out/` directory, and reply with a short summary of the two changes (files/lines touched, what manifests them). If you cannot find a second change that keeps the suite green, deliver one and say so.""")
